@@ -142,4 +142,43 @@ theorem sign_verifies_code_bytes (H : Bytes → Bytes) (a : Bytes) (hlen : a.len
 
 example : (natLE 32 (2 ^ 256 - 1)).length = 32 := natLE_length _ _
 
+/-! ### the alteration clause for keys as BYTES and for ANY altered key (review 5-F finding 5) -/
+
+/-- an altered public key — ANY curve point A′, in or outside ⟨B⟩ — accepted with the same message and signature on the
+translated code forces h′•A′ = h•A between the two challenges (an event of the hash alone) -/
+theorem altered_key_needs_hash_relation_code (H : Bytes → Bytes) (A A' : Pt) (msg sig : Bytes)
+    (h1 : verify codeGrp H A msg sig = .ok ()) (h2 : verify codeGrp H A' msg sig = .ok ()) :
+    ∃ R, codeGrp.dec (sig.take 32) = some R ∧
+      challenge codeGrp H A' R msg • A' = challenge codeGrp H A R msg • A :=
+  Props.C20.altered_key_needs_hash_relation codeGrp_is_lawful H A A' msg sig h1 h2
+
+/-- keys enter `Verify` as points decoded from bytes: a key byte string different from the canonical encoding `pub` of A
+that decodes at all decodes to ANOTHER point — or is a non-canonical alias (y ≥ p, or x = 0 with the sign bit: it does not
+re-encode to itself; `extFromBytes_noncanonical_accepted` is such a string) -/
+theorem altered_key_bytes_code (pub pub' : Bytes) (A A' : Pt) (hc : codeGrp.enc A = pub)
+    (_hA' : codeGrp.dec pub' = some A') (hne : pub' ≠ pub) : A' ≠ A ∨ codeGrp.enc A' ≠ pub' := by
+  by_cases h : A' = A
+  · right
+    intro he
+    exact hne (by rw [← he, h, hc])
+  · exact Or.inl h
+
+example : codeGrp.dec (codeGrp.enc (0 : Pt)) = some 0 := codeGrp_is_lawful.dec_enc 0
+
+/-- **the excluded key, stated**: for the degenerate key A = 0 (private scalar x ≡ 0 mod ℓ) the verification equation
+S•B = R + h•0 does not involve the challenge, so a signature accepted for one message is accepted for EVERY message —
+by `Verify` and, by `verify_iff_std`, by the RFC 8032 verifier (crypto/ed25519 behaves the same: this is EdDSA, not a
+defect of the code).  The message-alteration theorems therefore carry `¬ ℓ ∣ x`; listed in meta "assumptions". -/
+theorem degenerate_key_accepts_altered_message (H : Bytes → Bytes) (msg msg' sig : Bytes)
+    (h : verify codeGrp H (0 : Pt) msg sig = .ok ()) : verify codeGrp H (0 : Pt) msg' sig = .ok () := by
+  rw [verify_sound_code] at h ⊢
+  obtain ⟨hl, R, hR, hs, he⟩ := h
+  exact ⟨hl, R, hR, hs, by rw [smul_zero] at he ⊢; exact he⟩
+
+example (H : Bytes → Bytes) (k : ℕ) (msg msg' : Bytes) :
+    verify codeGrp H (0 : Pt) msg' (sign codeGrp H 0 k msg) = .ok () := by
+  have h := (sign_verifies_code H 0 k msg).1
+  rw [codeGrp_is_lawful.smul_eq, zero_smul] at h
+  exact degenerate_key_accepts_altered_message H msg msg' _ h
+
 end Dos.Props.C20Lawful
